@@ -484,4 +484,90 @@ theorem gen_serial_batch_inversion_eq (hinv : ∀ y, (O.inv y).isSome = true) (v
   rw [hi]
   simp
 
+/-! ## `mul` -/
+
+theorem zipIdx_eq (l : List α) :
+    l.zipIdx = (List.range' 0 l.length).map (fun j => (l.getD j O.zero, j)) := by
+  apply List.ext_getElem
+  · simp
+  · intro n h1 h2
+    simp only [List.length_zipIdx] at h1
+    simp [List.getD, List.getElem?_eq_getElem h1]
+
+/-- the inner loop of `mul` (`for j in 0..b.len() { result[i + j] += a[i] * b[j] }`) -/
+theorem mulInner_eq (a b : List α) (i : Nat) (hi : i < a.length) : ∀ (js : List Nat) (r : List α),
+    (∀ j ∈ js, j < b.length) → r.length < 18446744073709551616 →
+    loopM (js.map fun j => (b.getD j O.zero, j)) r
+        (fun r bj => updAt r (i + bj.2) fun v => O.add v (O.mul (a.getD i O.zero) bj.1))
+      = if Gen.Polynom.mul.for1_body.for1_ok O.toX a b i js r = true
+        then .ok (Gen.Polynom.mul.for1_body.for1 O.toX a b i js r) else .panic "index out of bounds" := by
+  intro js
+  induction js with
+  | nil => intro r _ _; simp [Gen.Polynom.mul.for1_body.for1, Gen.Polynom.mul.for1_body.for1_ok]
+  | cons j t ih =>
+    intro r hb hr
+    have hj : j < b.length := hb j (by simp)
+    rw [List.map_cons, loopM, Gen.Polynom.mul.for1_body.for1, Gen.Polynom.mul.for1_body.for1_ok, updAt_eq O]
+    unfold_gen Gen.Polynom
+    simp only [toX_zero, toX_add, toX_mul]
+    by_cases hk : i + j < r.length
+    · have hk' : i + j < 18446744073709551616 := by omega
+      simp only [hk, hk', hj, hi, if_true, decide_true, Bool.true_and]
+      exact ih _ (fun x hx => hb x (by simp [hx])) (by simpa using hr)
+    · simp [hk]
+
+theorem mulInner_length (a b : List α) (i : Nat) : ∀ (js : List Nat) (r : List α),
+    (Gen.Polynom.mul.for1_body.for1 O.toX a b i js r).length = r.length := by
+  intro js
+  induction js with
+  | nil => intro r; simp [Gen.Polynom.mul.for1_body.for1]
+  | cons j t ih =>
+    intro r
+    rw [Gen.Polynom.mul.for1_body.for1]
+    unfold_gen Gen.Polynom
+    rw [ih]; simp
+
+theorem mulStep_eq (a b : List α) (i : Nat) (hi : i < a.length) (r : List α) (hr : r.length < 18446744073709551616) :
+    mulInner O (a.getD i O.zero) i b r
+      = if Gen.Polynom.mul.for1_body_ok O.toX i r a b = true
+        then .ok (Gen.Polynom.mul.for1_body O.toX i r a b) else .panic "index out of bounds" := by
+  unfold mulInner
+  rw [zipIdx_eq O b, mulInner_eq O a b i hi _ r (by intro j hj; simp at hj; omega) hr]
+  unfold Gen.Polynom.mul.for1_body_ok
+  unfold_gen Gen.Polynom.mul.for1_body
+  simp
+
+/-- the outer loop of `mul` -/
+theorem mulOuter_eq (a b : List α) : ∀ (is : List Nat) (r : List α),
+    (∀ i ∈ is, i < a.length) → r.length < 18446744073709551616 →
+    loopM (is.map fun i => (a.getD i O.zero, i)) r (fun r ai => mulInner O ai.1 ai.2 b r)
+      = if Gen.Polynom.mul.for1_ok O.toX a b is r = true
+        then .ok (Gen.Polynom.mul.for1 O.toX a b is r) else .panic "index out of bounds" := by
+  intro is
+  induction is with
+  | nil => intro r _ _; simp [Gen.Polynom.mul.for1, Gen.Polynom.mul.for1_ok]
+  | cons i t ih =>
+    intro r ha hr
+    have hi : i < a.length := ha i (by simp)
+    rw [List.map_cons, loopM, Gen.Polynom.mul.for1, Gen.Polynom.mul.for1_ok]
+    simp only [mulStep_eq O a b i hi r hr]
+    by_cases hk : Gen.Polynom.mul.for1_body_ok O.toX i r a b = true
+    · rw [if_pos hk]
+      simp only [hk, Bool.true_and]
+      refine ih (Gen.Polynom.mul.for1_body O.toX i r a b) (fun x hx => ha x (by simp [hx])) ?_
+      unfold_gen Gen.Polynom.mul.for1_body
+      rw [mulInner_length O a b i _ r]; exact hr
+    · rw [if_neg hk]
+      simp [hk]
+
+/-- ★ `mul` (schoolbook product, the two index loops with `result[i + j] += ..`) -/
+theorem gen_mul_eq (a b : List α) (hlen : a.length + b.length < 18446744073709551616) :
+    mul O a b = if Gen.Polynom.mul_ok O.toX a b = true then .ok (Gen.Polynom.mul O.toX a b)
+      else .panic "index out of bounds" := by
+  unfold mul
+  rw [zipIdx_eq O a, mulOuter_eq O a b _ _ (by intro i hi; simp at hi; omega) (by simp; omega)]
+  unfold Gen.Polynom.mul_ok
+  unfold_gen Gen.Polynom.mul
+  simp [hlen]
+
 end C20G
